@@ -1,2 +1,154 @@
+//! C04: every subset of {root, timestamp, snapshot, targets} expired by margins from seconds to
+//! years, both enforcement settings, clock trajectories (forward jumps past each expiry between
+//! load and read, backward jumps between operations), chains with expired intermediate roots.
 use crate::*;
-pub async fn generate(_ctx: &mut Ctx<'_>, _seed: u64, _thorough: bool) {}
+
+const YEAR: i64 = 365 * DAY;
+
+struct Exp {
+    root: i64,
+    ts: i64,
+    snap: i64,
+    tgt: i64,
+}
+
+fn build(world: &mut World<'_>, msgs: &mut MsgGen, cs: bool, e: &Exp, chain: &[i64]) -> (ARoot, Vec<(AName, AResp)>) {
+    // target file for the reads
+    let content = b"abc".to_vec();
+    let d = world.digest_id(&vworld::meta::sha256(&content));
+    world.target_files = vec![(world.names.targets[2].clone(), content.clone())];
+    if cs {
+        let hexd = vworld::meta::sha256(&content).iter().map(|b| format!("{b:02x}")).collect::<String>();
+        world.target_files.push((format!("{hexd}.{}", world.names.targets[2]), content));
+    }
+    let mut b = base_repo(msgs, cs, false);
+    b.top.entries = vec![(2, 3, d)];
+    b.top.expires = e.tgt;
+    // chain: expiries of roots v1 (shipped), v2, ...; the last one is the final root
+    let mut roots = Vec::new();
+    let all: Vec<i64> = if chain.is_empty() { vec![e.root] } else { let mut c = chain.to_vec(); c.push(e.root); c };
+    for (i, ex) in all.iter().enumerate() {
+        let mut r = b.root.clone();
+        r.version = i as u64 + 1;
+        r.expires = *ex;
+        r.msg = msgs.next();
+        roots.push(r);
+    }
+    let online = Online { ts_sigs: valid_sigs(&[TK]), snap_sigs: valid_sigs(&[SK]), ts_expires: e.ts, snap_expires: e.snap };
+    let asm = assemble(world, cs, 1, 1, &b.top, &b.roles, Pin { length: true, hash: true }, &online, msgs);
+    let mut server = asm.server;
+    for r in roots.iter().skip(1) {
+        server.push((AName::RootV(r.version), AResp::File(AFile::plain(AContent::Root(r.clone())))));
+    }
+    (roots[0].clone(), server)
+}
+
+pub async fn generate(ctx: &mut Ctx<'_>, seed: u64, thorough: bool) {
+    let mut stream = 0u64;
+    let mut next = |s: &mut u64| { *s += 1; rng_for(seed, *s) };
+    let margins: &[i64] = &[10, 3600, 400 * DAY, 30 * YEAR];
+    let reps = if thorough { 6 } else { 1 };
+    for _ in 0..reps {
+        // 1. every subset expired, every margin, both settings
+        for subset in 0..16u32 {
+            for &m in margins {
+                for safe in [true, false] {
+                    let mut r = next(&mut stream);
+                    let cs = r.chance(1, 2);
+                    let mut world = World::new(ctx.pool, Names::default());
+                    let mut msgs = MsgGen(0);
+                    let ex = |bit: u32, r: &mut Rng| if subset & (1 << bit) != 0 { -m } else { *r.pick(&[10i64, 3600, 30 * DAY, 30 * YEAR]) };
+                    let e = Exp { root: ex(0, &mut r), ts: ex(1, &mut r), snap: ex(2, &mut r), tgt: ex(3, &mut r) };
+                    let (shipped, server) = build(&mut world, &mut msgs, cs, &e, &[]);
+                    let cyc = ACycle { limits: ALimits::default(), safe, now: 0, server, shipped: Some(shipped), reads: vec![(2, 2)] };
+                    ctx.emit(&mut world, &format!("subset-{}", if safe { "safe" } else { "unsafe" }), &[cyc], subset != 0, json!({"subset": subset, "margin": m})).await;
+                }
+            }
+        }
+        // 2. chains whose intermediate roots are expired
+        for len in 1..=3usize {
+            for final_expired in [false, true] {
+                for safe in [true, false] {
+                    let mut r = next(&mut stream);
+                    let cs = r.chance(1, 2);
+                    let mut world = World::new(ctx.pool, Names::default());
+                    let mut msgs = MsgGen(0);
+                    let chain: Vec<i64> = (0..len).map(|_| if r.chance(3, 4) { -*r.pick(margins) } else { 3600 }).collect();
+                    let e = Exp { root: if final_expired { -*r.pick(margins) } else { 30 * DAY }, ts: DAY, snap: 2 * DAY, tgt: 3 * DAY };
+                    let (shipped, server) = build(&mut world, &mut msgs, cs, &e, &chain);
+                    let cyc = ACycle { limits: ALimits::default(), safe, now: 0, server, shipped: Some(shipped), reads: vec![(2, 2)] };
+                    ctx.emit(&mut world, "chain-expired-intermediate", &[cyc], true, json!({"chain": chain, "final_expired": final_expired})).await;
+                }
+            }
+        }
+        // 3. forward jumps past each expiry between load and read; then a backward jump
+        for perm in 0..24u32 {
+            for safe in [true, false] {
+                let mut r = next(&mut stream);
+                let cs = r.chance(1, 2);
+                let unit = *r.pick(&[100i64, 3600, 100 * DAY]);
+                let mut slots = vec![1i64, 2, 3, 4];
+                // permutation number `perm`
+                let mut p = perm;
+                let mut order = Vec::new();
+                for k in (1..=4u32).rev() { let i = (p % k) as usize; p /= k; order.push(slots.remove(i)); }
+                let e = Exp { root: order[0] * unit, ts: order[1] * unit, snap: order[2] * unit, tgt: order[3] * unit };
+                let mut world = World::new(ctx.pool, Names::default());
+                let mut msgs = MsgGen(0);
+                let (shipped, server) = build(&mut world, &mut msgs, cs, &e, &[]);
+                let mut reads: Vec<(i64, usize)> = vec![(unit / 2, 2), (unit + unit / 2, 2), (2 * unit + unit / 2, 2), (4 * unit + unit / 2, 2)];
+                if r.chance(1, 2) {
+                    // backwards after having gone forwards
+                    reads = vec![(unit / 2, 2), (unit / 4, 2), (unit / 2 + 20, 7)];
+                }
+                let cyc = ACycle { limits: ALimits::default(), safe, now: 0, server, shipped: Some(shipped), reads };
+                ctx.emit(&mut world, "trajectory-read", &[cyc], true, json!({"perm": perm, "unit": unit})).await;
+            }
+        }
+        // 4. backward jump between two cycles on one datastore (and recovery when time catches up)
+        for safe in [true, false] {
+            for back in [20i64, 3600, 400 * DAY] {
+                let mut r = next(&mut stream);
+                let cs = r.chance(1, 2);
+                let mut world = World::new(ctx.pool, Names::default());
+                let mut msgs = MsgGen(0);
+                let e = Exp { root: 40 * YEAR, ts: 40 * YEAR, snap: 40 * YEAR, tgt: 40 * YEAR };
+                let (shipped, server) = build(&mut world, &mut msgs, cs, &e, &[]);
+                let t0 = 500 * DAY;
+                let mk = |now: i64, reads: Vec<(i64, usize)>| ACycle { limits: ALimits::default(), safe, now, server: server.clone(), shipped: Some(shipped.clone()), reads };
+                let cycles = vec![mk(t0, vec![(t0 + 10, 2)]), mk(t0 - back, vec![]), mk(t0 + 100, vec![(t0 + 50, 2), (t0 + 200, 2)])];
+                ctx.emit(&mut world, "clock-backwards-between-cycles", &cycles, true, json!({"back": back})).await;
+            }
+        }
+    }
+    // 5. random mixtures
+    let n = if thorough { 3000 } else { 250 };
+    for _ in 0..n {
+        let mut r = next(&mut stream);
+        let cs = r.chance(1, 2);
+        let safe = r.chance(3, 4);
+        let mut world = World::new(ctx.pool, Names::default());
+        let mut msgs = MsgGen(0);
+        let pick = |r: &mut Rng| { let m = *r.pick(&[60i64, 3600, DAY, 400 * DAY]); if r.chance(1, 4) { -m } else { m } };
+        let e = Exp { root: pick(&mut r), ts: pick(&mut r), snap: pick(&mut r), tgt: pick(&mut r) };
+        let chain: Vec<i64> = (0..r.below(3)).map(|_| pick(&mut r)).collect();
+        let (shipped, server) = build(&mut world, &mut msgs, cs, &e, &chain);
+        let ncyc = r.range(1, 3);
+        let mut cycles = Vec::new();
+        let mut op = 0i64;
+        for _ in 0..ncyc {
+            // clock positions well away from every expiry; two operations never share a clock value
+            // (each is 2 s after the previous one that used the same base point)
+            let mut t = |r: &mut Rng| -> i64 {
+                loop {
+                    let c = *r.pick(&[-2 * DAY, -300i64, 0, 300, 1800, DAY / 2, 2 * DAY, 500 * DAY]);
+                    if [e.root, e.ts, e.snap, e.tgt].iter().all(|x| (x - c).abs() >= 40) { op += 1; return c + 2 * op; }
+                }
+            };
+            let now = t(&mut r);
+            let reads: Vec<(i64, usize)> = (0..r.below(3)).map(|_| (t(&mut r), if r.chance(1, 5) { 7 } else { 2 })).collect();
+            cycles.push(ACycle { limits: ALimits::default(), safe, now, server: server.clone(), shipped: Some(shipped.clone()), reads });
+        }
+        ctx.emit(&mut world, "random", &cycles, true, json!({"chain": chain})).await;
+    }
+}
